@@ -19,7 +19,7 @@ FUID, FGID = 4242, 4343
 
 
 def make(rng, sid):
-    shape = rng.choice(["project", "readdirs", "noproject", "parsingdirs"])
+    shape = rng.choice(["project", "readdirs", "noproject", "parsingdirs", "configdirs", "setconfdirs"])
     p = gen_tree.shape_params(rng, shape)
     tg = gen_tree.Tagger()
     t = gen_tree.random_tree(rng, p["dirs"], p["name"], p["dsfx"], p["postfixes"], tg,
